@@ -19,6 +19,7 @@ import (
 )
 
 type Run struct {
+	quiet bool
 	mu    sync.Mutex
 	ID    int
 	Class string
@@ -58,7 +59,16 @@ func (r *Run) emit(m map[string]any) {
 		panic(err)
 	}
 	r.mu.Lock()
-	r.lines = append(r.lines, b)
+	if !r.quiet {
+		r.lines = append(r.lines, b)
+	}
+	r.mu.Unlock()
+}
+
+// Quiet suspends (true) / resumes (false) recording: events of a warm-up that is not part of the case are dropped.
+func (r *Run) Quiet(on bool) {
+	r.mu.Lock()
+	r.quiet = on
 	r.mu.Unlock()
 }
 
